@@ -54,6 +54,18 @@ CLAIMED = {
              'of any length are covered. Violations are replayed through a concrete history on the real Grid + LayoutHandler.',
         design_ref='DESIGN.md 4 C04',
         note=TRUST + 'Assumes the transpose contract (C01/C03) and the stated representation invariant; extents <= 4; payload abstract.'),
+    'C05': dict(
+        category='proof',
+        technique='symbolic execution of the real grid-level operator loops and initialisers on every simulated rank with index-tagged symbolic data; kernels as recorders / uninterpreted functions; z3 equality queries on the parameters each slice receives',
+        text='Partial claim (the part the property\'s second sentence states): on every rank of every listed process grid, each grid-level '
+             'operator (flux-surface, v-parallel incl. keep-gradient, poloidal incl. splines-unchanged) hands to its per-slice kernel the '
+             'table rows / advection speed / radius / velocity / potential plane of that slice\'s own global coordinates and processes '
+             'every global slice exactly once, and the three layout-specific initialisers produce init_f at the global coordinates '
+             '(exp/tanh/sqrt/cos uninterpreted). Flux tables are compared symbolically in dt. With C01/C03/C04 (layout changes) and '
+             'C07-C13/C16 (kernels) this gives decomposition independence of the split step in exact arithmetic.',
+        design_ref='DESIGN.md 4 C05',
+        note=TRUST + 'NOT decided: equality of floating-point results (reduction order/rounding), the quasi-neutrality solve (FFT/spsolve). '
+                     'Kernels are assumed to be functions of (numerical parameters, input slice). Extents (3,4,7,3), grids {1,2}^2 (thorough {1,2,3}^2).'),
     'C06': dict(
         category='proof',
         technique='symbolic set-iteration order (priorities as z3 Ints) through the real route search; symbolic-extent execution of all ranks under a mismatch/deadlock-detecting MPI simulator; symbolic selections through the gather/reduce branches',
